@@ -45,6 +45,46 @@ def run_cases(mod, specs, ctx, indices=None, budget_s=None):
     return done
 
 
+class LineCoverage:
+    """Which statement-start lines of the repository package executed while the monitors were watching
+    (sys.monitoring LINE events, each location disabled after its first hit: negligible overhead)."""
+
+    TOOL = 3
+
+    def __init__(self, root):
+        self.root = root
+        self.hit = set()
+        self.on = False
+
+    def start(self):
+        mon = getattr(sys, 'monitoring', None)
+        if mon is None:
+            return
+        try:
+            mon.use_tool_id(self.TOOL, 'vmon-lines')
+        except ValueError:
+            return
+        root, hit = self.root, self.hit
+
+        def on_line(code, line):
+            fn = code.co_filename
+            if fn.startswith(root):
+                hit.add((fn[len(root):], line))
+            return mon.DISABLE
+        mon.register_callback(self.TOOL, mon.events.LINE, on_line)
+        mon.set_events(self.TOOL, mon.events.LINE)
+        self.on = True
+
+    def stop(self):
+        if self.on:
+            sys.monitoring.set_events(self.TOOL, 0)
+            sys.monitoring.free_tool_id(self.TOOL)
+        out = {}
+        for fn, line in self.hit:
+            out.setdefault(fn, []).append(line)
+        return {k: sorted(v) for k, v in out.items()}
+
+
 def main(argv):
     prop, tier, seed, shard, nshards, outfile = argv[:6]
     seed, shard, nshards = int(seed), int(shard), int(nshards)
@@ -57,12 +97,16 @@ def main(argv):
     specs = all_cases(mod, seed, tier)
     mine = [(i, s) for i, s in enumerate(specs) if i % nshards == shard]
     t0 = time.time()
+    cov = LineCoverage(os.path.dirname(path) + os.sep)
+    if os.environ.get('VMON_LINES', '1') != '0':
+        cov.start()
     if hasattr(mod, 'setup_worker'):
         mod.setup_worker(ctx)
     done = run_cases(mod, [s for _, s in mine], ctx, [i for i, _ in mine])
     if hasattr(mod, 'teardown_worker'):
         mod.teardown_worker(ctx)
     out = ctx.dump()
+    out['lines'] = cov.stop()
     out.update({'cases_total': len(specs), 'cases_run': done, 'shard': shard,
                 'wall_s': time.time() - t0, 'copulas_path': path})
     tmp = outfile + '.tmp'
